@@ -443,11 +443,11 @@ fn run_with<F: TopicSubscriptionFilter + Send + 'static>(out: &mut Out, sched: &
     let deny = f.get("deny").and_then(|x| x.as_u64()).unwrap_or(0) as usize;
     let allowed: Vec<usize> = match k.as_str() {
         "all" | "max" => all,
-        "wl" | "maxwl" => arr_usize(&f, "allow"),
+        "wl" | "maxwl" | "comb2" => arr_usize(&f, "allow"),
         "comb" => arr_usize(&f, "allow").into_iter().filter(|t| *t != deny).collect(),
         x => panic!("filter kind {x}"),
     };
-    let counted = matches!(k.as_str(), "max" | "maxwl" | "comb");
+    let counted = matches!(k.as_str(), "max" | "maxwl" | "comb" | "comb2");
     hdr["allowed"] = json!(allowed);
     hdr["maxsubs"] = json!(if counted { f.get("maxsubs").and_then(|x| x.as_u64()).unwrap_or(100) } else { 100 });
     hdr["maxreq"] = json!(if counted { f.get("maxreq").and_then(|x| x.as_u64()).unwrap_or(100) } else { 100 });
@@ -488,7 +488,7 @@ fn run_with<F: TopicSubscriptionFilter + Send + 'static>(out: &mut Out, sched: &
 
 /// Filter kinds (cfg.filter.k): "all" (the default MaxCount(AllowAll,100,100)), "wl" whitelist,
 /// "max" MaxCount(AllowAll, maxsubs, maxreq), "maxwl" MaxCount(Whitelist), "comb"
-/// MaxCount(Combined(Whitelist, Callback(topic != t<deny>))).
+/// MaxCount(Combined(Whitelist, Callback(topic != t<deny>))), "comb2" Combined(MaxCount(AllowAll), Whitelist).
 pub fn run(out: &mut Out, sched: &Value) {
     let c = &sched["cfg"];
     let f = c.get("filter").cloned().unwrap_or(json!({"k": "all"}));
@@ -518,6 +518,15 @@ pub fn run(out: &mut Out, sched: &Value) {
                 },
             )
         }
+        // the max-count filter as a MEMBER of a combination (its limits must hold there too)
+        "comb2" => run_with(
+            out,
+            sched,
+            CombinedSubscriptionFilters {
+                filter1: MaxCountSubscriptionFilter { filter: AllowAllSubscriptionFilter {}, max_subscribed_topics: maxsubs, max_subscriptions_per_request: maxreq },
+                filter2: WhitelistSubscriptionFilter(allow),
+            },
+        ),
         x => panic!("filter kind {x}"),
     }
 }
@@ -551,7 +560,7 @@ fn gen_one(rng: &mut impl Rng, g: &GenCfg, len: usize) -> Value {
     let kinds: Vec<&str> = (0..np).map(|_| if class == "mesh" && rng.gen_bool(0.15) { "f" } else if rng.gen_bool(0.2) { "g2" } else { "g" }).collect();
     let filter = match class {
         "filter" | "filterg" => {
-            let k = ["wl", "max", "maxwl", "comb"][rng.gen_range(0..4)];
+            let k = ["wl", "max", "maxwl", "comb", "comb2"][rng.gen_range(0..5)];
             let mut allow: Vec<usize> = (0..nt).filter(|_| rng.gen_bool(0.6)).collect();
             if allow.is_empty() {
                 allow.push(0);
